@@ -31,7 +31,7 @@ DROPPED = "\x01\x08\x0b\x1f\ufffe\uffff\0"
 def payload(rng, k):
     """a markup payload with a unique marker; one time in three with characters XML cannot represent inserted into
     it (the code drops those: an escape that runs before the drop can be undone by it, e.g. `]]\x01>` or `<\x01script>`)"""
-    p = rng.choice(PAYLOADS + ["]]\x01></style><script>MK()</script>", "<\x01script>MK</script>", "&\ufffelt;MK"])
+    p = rng.choice(PAYLOADS + ["]]\x01></style><script>MK()</script>", "<\x01script>MK</script>", "&\ufffelt;MK", "&#60;MK&#62;", "&#x3c;MK&#x3e;", "&#0;MK", "&#+60;MK"])
     p = p.replace("MK", "MK%dq" % k)
     if rng.chance(1, 3):
         cs = list(p)
